@@ -22,13 +22,13 @@ package interpolation
 //@     invariant[C08] forall k string :: seen(k) ==> !pathmatch(path, k)
 
 //@ func newPathError
-//@   except nilderef#5 : undischarged on the reference tree (engine limit or missing callee contract), not claimed
+//@   except nilderef@a3d761#2 : undischarged on the reference tree (engine limit or missing callee contract), not claimed
 //@   nopanic[C01,C08]
 //@   pure
 //@   ensures[C01,C08] result == nil <==> err == nil
 
 //@ func recursiveInterpolate
-//@   except nilbox#2, nilbox#4, precondition#8 : undischarged on the reference tree (engine limit or missing callee contract), not claimed
+//@   except nilbox@1b51cd#1, nilbox@dfc959#1, precondition@dad6d2#2 : undischarged on the reference tree (engine limit or missing callee contract), not claimed
 //@   nopanic[C01,C08]
 //@?  ensures[C08] err == nil && isMap(value) ==> forall k string :: has(asMap(result.0), k) <==> has(asMap(value), k)     // engine: the recursive call (callbacks opts.Substitute / caster) havocs every heap, including the fresh `out`; with `pure` on this function the per-heap loop havoc makes ~40 frame obligations time out instead
 //@?  ensures[C08] err == nil && isMap(value) ==> forall k string :: has(asMap(value), k) ==> shape1(asMap(value)[k], asMap(result.0)[k])     // same
@@ -45,7 +45,7 @@ package interpolation
 //@   ensures[C01] err != nil && !isStr(value) ==> result.0 == nil
 
 //@ func Interpolate
-//@   except nilbox#2 : undischarged on the reference tree (engine limit or missing callee contract), not claimed
+//@   except nilbox@f21537#1 : undischarged on the reference tree (engine limit or missing callee contract), not claimed
 //@   nopanic[C01,C08]
 //@?  ensures[C08] err == nil ==> forall k string :: has(result.0, k) <==> has(config, k)     // engine: as for recursiveInterpolate (call havocs `out`)
 //@?  ensures[C08] err == nil ==> forall k string :: has(config, k) ==> shape1(config[k], result.0[k])     // same
